@@ -750,19 +750,19 @@ def spec_strategy(mode=None):
     mtu = st.one_of(st.sampled_from([48, 49, 64, 672, 1024, 2048, 65535]), st.integers(48, 4096), st.integers(48, 65535))
     mps = st.one_of(
         st.sampled_from([23, 24, 25, 31, 48, 64, 255, 256, 1009, 1010]),
-        st.integers(23, 80), st.integers(23, 80), st.integers(23, 1010), st.integers(23, 1010), st.integers(23, 1010),
-        st.sampled_from([1011, 2048, 4096, 65525, 65525, 65526, 65530, 65535]),
+        st.integers(23, 80), st.integers(23, 1010), st.integers(23, 1010),
     )
+    huge_mps = st.sampled_from([1011, 2048, 4096, 65525, 65525, 65526, 65530, 65535])
     win = st.one_of(st.sampled_from([1, 2, 3, 8, 32, 62, 63]), st.integers(1, 63))
 
     def build(d):
-        m, mtu_, mps_, win_, fcs, sup, maxr, rto = d
-        return {'mode': m, 'mtu': mtu_, 'mps': mps_, 'win': win_, 'fcs': fcs, 'fcs_sup': True if fcs else sup,
-                'maxr': maxr, 'rto': rto}
+        m, mtu_, mps_, huge, pick_huge, win_, fcs, sup, maxr, rto = d
+        return {'mode': m, 'mtu': mtu_, 'mps': huge if pick_huge == 0 else mps_, 'win': win_, 'fcs': fcs,
+                'fcs_sup': True if fcs else sup, 'maxr': maxr, 'rto': rto}
 
     return st.tuples(
-        st.just(mode) if mode else st.sampled_from([E, E, E, B]), mtu, mps, win, st.booleans(),
-        st.sampled_from([True, True, True, False]), st.sampled_from([0, 1, 1, 3, 255]),
+        st.just(mode) if mode else st.sampled_from([E, E, E, B]), mtu, mps, huge_mps, st.integers(0, 19), win,
+        st.booleans(), st.sampled_from([True, True, True, False]), st.sampled_from([0, 1, 1, 3, 255]),
         st.sampled_from([2.0] * 6 + [0.4, 0.03]),
     ).map(build)
 
@@ -919,7 +919,7 @@ def run(ctx) -> None:
             break
         run_case(ctx, case)
     ctx.extra['setup_grid_pairs'] = len(grid)
-    ctx.hyp('xfer', lambda c: run_case(ctx, c), case_strategy(), max_examples=ctx.n(600, 60000))
+    ctx.hyp('xfer', lambda c: run_case(ctx, c), case_strategy(), max_examples=ctx.n(600, 40000))
     for label, n in (
         ('mode:EE', 100), ('mode:BB', 30), ('mode_mismatch', 20), ('carrier:classic', 50), ('carrier:le', 50),
         ('fcs_requested', 50), ('fcs_on_wire', 30), ('segmented', 50), ('window_lt_segments', 40),
